@@ -78,18 +78,32 @@ def main(argv=None):
     crashes = []
     solver_time = 0.0
     notes = []
+    # reference obligation counts per clause, recorded on the unchanged tree (`VERIF_WRITE_BASELINE=1 ./vcheck Cxx`): a clause that now
+    # generates fewer obligations has silently stopped talking about part of the code -> undecided, never a quiet pass
+    bl_path = os.path.join(HERE, 'baseline_obligations.json')
+    baseline = json.load(open(bl_path)) if os.path.exists(bl_path) else {}
+    write_bl = bool(os.environ.get('VERIF_WRITE_BASELINE')) and not a.only
     for f, o in zip(cls, outs):
         if o['crash']:
             crashes.append((f.clause_name, o['crash']))
         n_obl = sum(1 for r in o['results'] if r['kind'] in ('proof', 'bounded'))
+        n_proof = sum(1 for r in o['results'] if r['kind'] == 'proof' and not r['name'].endswith('.obligation-count'))
         if not o['crash'] and n_obl < f.min_obl:
             o['results'].append({'name': f.clause_name + '.obligation-count', 'status': 'undecided', 'solver': '', 'time_s': 0, 'kind': 'proof',
                                  'detail': {'reason': f'vacuity guard: {n_obl} obligations generated, at least {f.min_obl} expected'}})
+        key = f'{tier}:{f.clause_name}'
+        if write_bl:
+            baseline[key] = n_proof
+        elif not o['crash'] and key in baseline and n_proof < baseline[key] and not any(r['status'] in ('violated',) for r in o['results']):
+            o['results'].append({'name': f.clause_name + '.obligation-count', 'status': 'undecided', 'solver': '', 'time_s': 0, 'kind': 'proof',
+                                 'detail': {'reason': f'vacuity guard: {n_proof} proof obligations generated, {baseline[key]} on the reference tree (paths or cases were lost)'}})
         results += o['results']
         for u in o['used']:
             used[u['function']] = u
         solver_time += o['solver_time']
         notes += o['notes']
+    if write_bl:
+        json.dump(dict(sorted(baseline.items())), open(bl_path, 'w'), indent=0)
     viol, und, known_hits = [], [], []
     for r in results:
         if r['status'] in ('violated', 'bounded_fail'):
